@@ -225,3 +225,11 @@ Proof.
       + unfold read_varint_slow. apply slow_path_spec. cbn. lia. }
   rewrite Hu, Hs. destruct (uleb_dec 10 bs 0 0) as [[v r]|]; reflexivity.
 Qed.
+
+Lemma vlq_long_bounded bs : vlq_long bs 0 0 <> VPanic /\
+  forall z r, vlq_long bs 0 0 = VVal z r -> (length r < length bs /\ length bs - length r <= 10)%nat.
+Proof. split; [apply vlq_long_start_no_panic|apply vlq_long_start_progress]. Qed.
+
+Lemma read_blocks_total_start sync bs :
+  match read_blocks (S (length bs)) sync bs [] with ROk _ | RErr | RHang => True | _ => False end.
+Proof. apply read_blocks_total. apply Nat.lt_succ_diag_r. Qed.
